@@ -17,7 +17,7 @@ number of immediate events and of timers, fill of the four pools.
 namespace Percival.Driver.Upmodel
 open Percival.Driver Percival.Model Percival.Model.UpStep
 open Percival.Model.Connect (AddrOutcome)
-open Percival.Driver.Ds (showL2c)
+open Percival.Driver.Ds (showL2c kv)
 
 /-! ## text → typed op -/
 
@@ -61,14 +61,25 @@ def showL2 (x : L2) : String :=
   let pools := ",".intercalate (x.pools.map fun (p : Nat × Nat) => s!"{p.1}/{p.2}")
   s!"{showL2c x.c} S={sS} imm={x.imm} tm={x.tm} pools={pools}"
 
-def render : Out → String
-  | .word .ok => "ok"
-  | .word .skip => "skip"
-  | .word .modelContract => "model-contract"
-  | .end_ live n left =>
+/-- the L1 part of the printed line as tokens (`pmodel upmon` reads exactly these: `Proofs/AfAns.lean`) -/
+def l1Toks : Out → List String
+  | .word .ok => ["ok"]
+  | .word .skip => ["skip"]
+  | .word .modelContract => ["model-contract"]
+  | .end_ live _ _ => ["end", kv "live" (toString live), kv "leaked" "0"]
+  | .line ok rfn _ => [if ok then "ok" else "fail", kv "rf" (toString rfn)]
+
+/-- the L2 part (after ` | `), if the line has one -/
+def l2Str : Out → Option String
+  | .word _ => none
+  | .end_ _ n left =>
     let tail := match left with | none => "" | some (l, b) => s!" model-live={l} model-bad={b}"
-    s!"end live={live} leaked=0 | n={n}{tail}"
-  | .line ok rfn l2 => s!"{if ok then "ok" else "fail"} rf={rfn} | {showL2 l2}"
+    some s!"n={n}{tail}"
+  | .line _ _ l2 => some (showL2 l2)
+
+/-- the printed line: the L1 tokens joined by single spaces, then ` | ` and the L2 part -/
+def render (o : Out) : String :=
+  " ".intercalate (l1Toks o) ++ (match l2Str o with | some s => " | " ++ s | none => "")
 
 def step (s : S) (toks : List String) : S × String :=
   match parseOp toks with
